@@ -504,7 +504,85 @@ def check_C19(tier, replay=None):
                   ["hand-written probe types (harness/src/multiref.rs)", "yaserde 0.12", "TLC"])
 
 
-CHECKS = {"C19": check_C19, "C14": check_C14, "C17": check_C17, "C13": check_C13, "C12": check_C12, "C09": check_C09, "C10": check_C10, "C08": check_C08, "C11": check_C11, "C06": check_C06, "C15": check_C15, "C02": check_C02}
+# ------------------------------------------------------------------------- compile/run group
+
+def cr_cases(tier):
+    def mc():
+        R0 = Result("CR", tier)
+        vocab, cases = {}, []
+        for sl in ("types", "wsdl"):
+            c = cfg("MCSpec", {"Dev": "{}", "Slice": '"%s"' % sl, "Tier": '"%s"' % tier, "Tok": "<- TokTab"}, invariants=["WellFormed", "Emit"])
+            res, vocab, cs, _ = mc_run(R0, "MC_CR", c, "MC_CR_" + sl, workers=4)
+            cases += cs
+        for i, c in enumerate(cases):
+            c["id"] = i + 1
+        # the client/server scenarios of spec/Client.tla
+        import crpipe
+        c16 = cfg("MCSpec", {"Dev": "{}"}, invariants=["AtMostOnePost", "OkOnlyIf", "AuthIffCreds", "NothingSentOnViolation", "FailuresAreErrors", "OutcomeAgrees", "EmitScn"],
+                  properties=["Returns"])
+        res, _, _, tagged = mc_run(R0, "MC_C16", c16, "MC_C16", workers=4)
+        crpipe.SCENARIOS = [p for t, p in tagged if t == "SCN"]
+        return vocab, cases, R0.mc_runs
+    return mc
+
+
+def check_CR(prop, tier, rule, text_assume, known_devs=(), level="model_checking"):
+    import crpipe
+    R = Result(prop, tier)
+    z.build_harness()
+    vocab, cases, events, stats = crpipe.run_pipeline(tier, cr_cases(tier))
+    for m in stats.get("mc", []):
+        R.states += m["distinct"]
+        R.transitions += m["states_generated"]
+        R.mc_runs.append(m)
+    R.cases, R.vocab = cases, vocab
+    dev = [d for d in z.dev_set() if d in known_devs]
+    traces = crpipe.write_traces("CR_" + prop, vocab, cases, events, shards=min(8, len(cases)))
+    tcfg = cfg("TraceSpec", {"Dev": tla_set(dev), "P": '"%s"' % prop, "Tok": "<- TokOfTrace"}, post="Accepted")
+    viol, known, stale, drift = trace_run(R, "Trace_CR", tcfg, traces, "T_CR_" + prop)
+    R.viol = viol
+    for k in known:
+        for d in (k.get("devs") or ["?"]):
+            R.known.setdefault(d, k)
+    R.extra["pipeline"] = {k: v for k, v in stats.items() if k != "mc"}
+    R.samples = [{"label": c["label"], "kind": c["kind"], "structs": len(c["expect"]), "ops": len(c["ops"])} for c in cases[:4]]
+    if level == "other":
+        R.extra["explanation"] = "the TLA+ side contributes the set of programs (every operation shape of the WSDL cases of MC_CR) and the expectation; auto-trait inference is rustc's: the synthesised driver passes every returned future to fn assert_send<T: Send>, asserts Send + Sync for the envelope types and spawns each call on a multi-thread tokio runtime; a driver that does not compile is the violation"
+    return finish(R, level, rule, text_assume)
+
+
+CR_ASSUME = ["concretiser; syn-based abstraction; driver synthesiser (lib/crpipe.py); token table (Rust literal, XSD lexical form) of MC_CR", "rustc, yaserde 0.12", "TLC"]
+
+
+def check_C01(tier, replay=None):
+    return check_CR("C01", tier, "schema sets of MC_CR (27 builtins required/repeated, member positions, extension near/far, restricted simple types, keyword names; WSDLs plain / with headers / one-way / three name styles / imported body element): each is generated by the real code and the emitted file is compiled as a module of a crate whose only dependencies are yaserde, yaserde_derive, xml-rs, log, reqwest and tokio", CR_ASSUME)
+
+
+def check_C03(tier, replay=None):
+    return check_CR("C03", tier, "for every struct of every MC_CR case a value is built under the plans min / max / mix (optional members absent/present, repeated 0/1/3, leaves at their extremes or needing escaping), serialised by yaserde in a compiled driver, parsed namespace-aware, and TLC compares the infoset with Wire!ExpInfoset (names, namespaces, order, occurrence, lexical forms, prefix bindings)", CR_ASSUME)
+
+
+def check_C04(tier, replay=None):
+    return check_CR("C04", tier, "instance documents are rendered from Wire!ExpInfoset for every struct x plan in three prefix styles (generated prefixes, renamed prefixes, default namespace), read with yaserde::de::from_str in a compiled driver and re-serialised; TLC compares the re-serialised infoset with the instance; every plan-built value also goes through serialise-deserialise-serialise", CR_ASSUME)
+
+
+def check_C05(tier, replay=None):
+    return check_CR("C05", tier, "WSDL cases of MC_CR (plain, header parts with the body part not named by parts=, one-way, three operation name styles, restricted members, body element of an imported namespace): request and response envelopes are built, serialised and compared by TLC with Wire!ExpEnvelope (Body holds exactly the bound body part's element, Header the bound header parts' elements under their own QNames); the response document with other prefixes is parsed back; a compiled driver asserts each method's name, argument type and future output type; the service type's methods are counted; calls against a loopback listener show the path posted to and the address declared", CR_ASSUME)
+
+
+def check_C07(tier, replay=None):
+    return check_CR("C07", tier, "values whose restricted leaves satisfy the effective facets (own + inherited through derivation) must pass check_restrictions(None), requests with a violating restricted leaf (in header or body, bare / optional / repeated) must fail it, and a client call with such a request must return the restriction error with zero accepted connections on the loopback listener", CR_ASSUME)
+
+
+def check_C16(tier, replay=None):
+    return check_CR("C16", tier, "spec/Client.tla (check, connect, send, status, body, parse, return against a scripted server) is model-checked for every scenario (credentials x 4 transport failures + 9 statuses x 5 body classes); every scenario is replayed against every generated client (all for the first operation of a case, a covering subset for the others) with a scripted loopback HTTP listener; TLC compares result class, connections accepted, requests received, method, Basic credentials, request body and returned envelope with Client!Outcome", CR_ASSUME)
+
+
+def check_C18(tier, replay=None):
+    return check_CR("C18", tier, "for every operation of every WSDL case a compiled driver passes the future returned by the client method (and by the free-standing soapAction function) to fn assert_send<T: Send>, asserts Send + Sync for the envelope types, and spawns the call on a multi-thread tokio runtime; rustc is the judge of the model-generated programs", CR_ASSUME, level="other")
+
+
+CHECKS = {"C01": check_C01, "C03": check_C03, "C04": check_C04, "C05": check_C05, "C07": check_C07, "C16": check_C16, "C18": check_C18, "C19": check_C19, "C14": check_C14, "C17": check_C17, "C13": check_C13, "C12": check_C12, "C09": check_C09, "C10": check_C10, "C08": check_C08, "C11": check_C11, "C06": check_C06, "C15": check_C15, "C02": check_C02}
 
 
 def main(argv):
